@@ -155,6 +155,14 @@ def cases(M):
             v["microseconds"] = s * r.choice((999999, 10**6, 10**6 + 1, 59999999, 6 * 10**7, 86399999999, 864 * 10**8))
             v["seconds"] = r.choice((0, s * 59, -s * 60, s * 86399))
             v["days"] = r.choice((0, s * 6, -s * 7, s * 7))
+        elif mode == 7 and j % 8 == 7:
+            # two Durations of the same timedelta value, split differently between years/months and days, one after the other
+            # (equal and hash-equal objects: anything memoised per value must not hand one the other's breakdown)
+            y, mo = r.randrange(-3, 4), r.randrange(-14, 15)
+            d0, h0 = r.randrange(-400, 400), r.choice((-5, 5, -23, 7))
+            us0 = r.choice((0, 1, -1, 250000))
+            yield {n: 0 for n in KW} | {"days": d0 + 365 * y + 30 * mo, "hours": h0, "microseconds": us0}
+            v = {n: 0 for n in KW} | {"years": y, "months": mo, "days": d0, "hours": h0, "microseconds": us0}
         elif mode == 6 and j % 16 == 6:
             # a day part beyond timedelta's own limit, pulled back into range by years/months of the opposite sign
             v = {n: 0 for n in KW}
